@@ -7,6 +7,7 @@ NOTE = ("exhaustive part: bounded design model (constants in evidence.design_run
 TECH = "explicit TLA+ specification; TLC exhaustive design check + TLC trace validation of traces recorded from the real code"
 CHECKS = {
  "C01": "The risk gate is a TLA+ state machine (MC_Gate) model checked under acknowledgement discipline: accepted orders are within the limits counted in full and the brute-force worst-case loss stays within the per-selection limit (and TLC exhibits the breach caused by the implementation's REPLACE handling). On real runs TLC recomputes the brute-force worst case (Exposure.tla) of position + order at every accepted PLACE/REPLACE and the worst-case loss per selection at the end of every update.",
+ "C02": "The request path is a TLA+ specification (Transaction.tla) model checked for exactly-once delivery, kind, per-call limit, one version per package, request order and nothing pending after exit; packages captured from real Transaction objects (three client kinds, true limits, up to 700 requests) must equal Transaction!Expected, and on simulation runs with the real controls every refused request's before/after snapshot is judged by TLC.",
  "C03": "Order life-cycle formulas (legal transition at every _update_status call, finality, one package in flight, request guards) are TLA+ formulas checked by TLC in every state of the exhaustive design model MC_SimCore and on every step of traces recorded from the real simulation stack; the traces must also be behaviours of SimCore!Step.",
  "C04": "Size conservation, non-negativity, completion iff nothing remains and matched-monotonicity: TLC-checked invariants / action properties of MC_SimCore and MC_SimMatch, evaluated by TLC on every recorded state of real runs at strategy-callback granularity.",
  "C05": "The placement decision tree is transcribed in SimMatch!Place; TLC checks the limit / level / fill-or-kill / best-price-execution formulas for every book x order of the bounded space, and on every placement the real engine performs in random runs, whose result must equal SimMatch!Place on the logged book.",
@@ -15,6 +16,9 @@ CHECKS = {
  "C08": "The exchange's settlement rules are a TLA+ module in integer arithmetic (Settlement.tla); TLC checks their laws (side symmetry, zero for unmatched/removed, dead-heat and line rules) exhaustively on a bounded space and evaluates order.profit and the cleared-market summary of every real closure against them.",
  "C09": "Runner-removal formulas (void in full and complete, reduction within half a cent applied once per market, no spurious reduction) checked by TLC on the design model and on recorded middleware passes incl. two-market runs.",
  "C16": "The closed form of get_exposures / market_exposure is proved equal to the brute-force worst case (minimum over fill subsets and admissible winner sets) by exhaustive TLC enumeration of a bounded position space; the figures returned by the real Blotter for real order objects (grid + random positions, every exclusion, prospective new orders) are judged by TLC against the brute force.",
+ "C17": "The exchange's ladders are defined in TLA+ from the published increment tables (Ladder.tla) and their laws model checked; every result of get_nearest_price / price_ticks_away / make_line_prices on the grid the property names and every decision of OrderValidation on real orders over the decision table is judged by TLC against that specification.",
+ "C18": "MaxTransactionCount is a TLA+ specification (TxnCount.tla) model checked for exact totals / hourly figures, blocked-iff-over after the hour check, restart on the first request of a new hour and no cross-talk; every call of the real control and every execution handler of simulation runs spanning hour and day boundaries (one or two clients) is judged against it.",
+ "C19": "Reference construction / parsing is specified in OrderRefs.tla and model checked (round trip for valid separators, breakage for other lengths); references of real orders for adversarial strategy names and every separator are judged by TLC (length, characters, construction, round trip through process_current_orders of a second instance), uniqueness over >40k ids from tight loops / threads / simulated clock.",
  "C20": "Closure bookkeeping (Closure.tla: repeated CLOSED books, re-open, first-seen-closed, removal after an hour in live) is model checked; every closing update of real simulation runs is judged by the same formulas (callbacks once per closing update and receiving strategy, cleared events, flags, released state).",
  "C10": "Runner-context accounting recounted from the orders by TLA+ formulas at the end of every update (design: every reachable state; real code: every recorded update); limits checked at every accepted placement.",
  "C13": "Isolation: TLC proves on the matching specification that a strategy's fills are independent of another strategy's orders when isolation is on (and finds a difference when it is off); ledgers of run(A), run(A+B), run(B+A) through the real stack are compared by TLC. Containment: exceptions injected into every callback kind; deliveries, step order and the lifecycle/accounting/blotter formulas are judged by TLC on the recorded runs.",
